@@ -1,5 +1,6 @@
 import QuaiVerif.Model.Validate
 import QuaiVerif.Gen.Validator
+import QuaiVerif.Gen.Mirror
 /-
 C07: own blocks validate; any deviation from re-execution is rejected; a rejected block leaves no trace.
 The decision logic is proved for every execution function; the tie to the code is (T1) the regenerated table of
@@ -96,5 +97,14 @@ example : validate (fun (s : Nat) (b : List Nat) => if b.all (· ≤ s) then som
     { body := [1, 2], declared := 2 } = true ∧
   validate (fun (s : Nat) (b : List Nat) => if b.all (· ≤ s) then some (s - b.sum, b.length) else none) 10
     { body := [1, 2], declared := 3 } = false := by decide
+
+/-- **C07 (T1: the assembler locks what the validator locks).** For coinbase ETXs paid into a lockup contract the block
+assembler (worker.go commitTransaction) and the validator (state_processor.go Process) call `vm.AddNewLock` - and credit
+balances - with the same arguments, computed from the same expressions (names that differ only through the surrounding
+code normalised by the extractor): a different amount, unlock height, epoch or delegate on one side would make the node
+reject its own block. -/
+theorem C07_assembler_and_validator_lock_the_same : Gen.mirrorWorker = Gen.mirrorProcessor := by decide
+
+theorem C07_mirror_nonempty : Gen.mirrorWorker.length ≥ 2 := by decide
 
 end QuaiVerif.Validate
